@@ -2,7 +2,7 @@
 import json, os, sys
 V = os.path.dirname(os.path.dirname(os.path.abspath(__file__)))
 sys.path.insert(0, os.path.join(V, "rules"))
-from props.meta import META, NOT_APPLICABLE
+from props.meta import META, NOT_APPLICABLE, THOROUGH, ADDED
 m = json.load(open(os.path.join(V, "MANIFEST.json")))
 m["checks"] = []
 ids = [json.loads(l)["id"] for l in open(os.path.join(V, "properties.jsonl"))]
@@ -19,8 +19,8 @@ for pid in ids:
             "replay_cmd_template": f"./check {pid} --replay {{path}}",
             "engine": "mirfacts+rules",
             "level_claimed": {"category": "other", "text": e["text"], "design_ref": e.get("design_ref", "DESIGN.md §3")},
-            "level_note": e["note"],
-            "technique": e["technique"],
+            "level_note": e["note"] + THOROUGH.get(pid, {}).get("note", " Quick and thorough tiers evaluate the same rule instances."),
+            "technique": e["technique"] + ADDED.get(pid, "") + THOROUGH.get(pid, {}).get("technique", ""),
         })
 m["not_applicable"] = [{"property_id": p, "reason": NOT_APPLICABLE.get(p, "no static rule built yet for this property (work in progress); not claimed")} for p in ids if p not in served]
 for eng in m.get("engines", []):
